@@ -164,6 +164,37 @@ def search(ctx):
     sampler = mici.samplers.StaticMetropolisHMC(sysm, integ, np.random.default_rng(1), n_step=2)
     sampler.sample_chains(30, 2, [np.zeros(3)], adapters=[mici.adapters.OnlineCovarianceMetricAdapter()], display_progress=False)
     check("EuclideanMetricSystem[after OnlineCovarianceMetricAdapter]|euclid", "euclid", sysm, ChainState(pos=np.zeros(3), mom=np.ones(3), dir=1))
+    # the momenta a metric adapter hands over at the end of a stage are drawn under the NEW metric: p = L_new z for the z the chain's generator produces
+    for acls in (mici.adapters.OnlineVarianceMetricAdapter, mici.adapters.OnlineCovarianceMetricAdapter):
+        for n_chain in (1, 3):
+            sysm = S.EuclideanMetricSystem(lambda q: 0.5 * q @ q, grad_neg_log_dens=lambda q: q)
+            tr = mici.transitions.MetropolisStaticIntegrationTransition(sysm, mici.integrators.LeapfrogIntegrator(sysm, step_size=0.5), n_step=1)
+            ad = acls()
+            states, cstates = [], []
+            for c in range(n_chain):
+                cs = ChainState(pos=rng.standard_normal(3), mom=rng.standard_normal(3), dir=1)
+                a = ad.initialize(cs, tr)
+                for _ in range(12):
+                    cs.pos = rng.standard_normal(3) * np.array([0.3, 1.0, 3.0])
+                    ad.update(a, cs, {"accept_stat": 0.7}, tr)
+                states.append(a)
+                cstates.append(cs)
+            zs = [rng.standard_normal(3) for _ in range(n_chain)]
+            gens = [BasisRng(z) for z in zs]
+            if n_chain == 1:
+                ad.finalize(states[0], cstates[0], tr, gens[0])
+            else:
+                ad.finalize(states, cstates, tr, gens)
+            Lnew = np.asarray(sysm.metric.sqrt @ np.eye(3))
+            ctx.case(("adapter-handover", acls.__name__, n_chain))
+            ctx.count("search:adapter_handover")
+            for c, (cs, z) in enumerate(zip(cstates, zs)):
+                if not np.allclose(cs.mom, Lnew @ z, rtol=1e-10, atol=1e-12):
+                    bad += 1
+                    ctx.fail(f"adapter_handover:{acls.__name__}", f"{acls.__name__}.finalize ({n_chain} chain(s)): the momentum handed over for chain {c} is not L z with L the square-root "
+                             f"factor of the metric the adapter just set (it is {'the factor of the OLD metric' if np.allclose(cs.mom, z) else 'something else'})",
+                             {"adapter": acls.__name__, "n_chain": n_chain})
+                    break
     ctx.oblige("search: momentum factor recovered column by column (basis-vector generator) for every system class, every metric matrix kind (incl. low-rank "
                "update / downdate and inverse forms), constrained projections, after metric re-assignment and after a metric adapter: L L^T = metric "
                "(projected), exact linearity, cotangent space, refresh coefficients 0 / 0.35 / 0.8 / 1", bad == 0, f"{bad} failures")
